@@ -35,14 +35,14 @@ func init() {
 		Run:   ruleFLAGOR,
 	})
 	register(&Rule{
-		Name:  "FP-CONST-SIGN",
-		Doc:   "the float printer never returns a constant numeric spelling without having examined the sign: a `return \"0.0\"`-like statement in the printer's function set (Float.Ident and what it calls) is guarded by a condition that reads Signbit of the value — big.Float distinguishes −0 from +0 and Sign() is 0 for both, so a constant spelling for `Sign() == 0` prints −0.0 as 0.0; likewise no function of ir/constant orders big.Float.Sign() against zero (the sign is read with Signbit: a negative NaN decoded from a hexadecimal literal is held as −0)",
-		Run:   ruleFPCONSTSIGN,
+		Name: "FP-CONST-SIGN",
+		Doc:  "the float printer never returns a constant numeric spelling without having examined the sign: a `return \"0.0\"`-like statement in the printer's function set (Float.Ident and what it calls) is guarded by a condition that reads Signbit of the value — big.Float distinguishes −0 from +0 and Sign() is 0 for both, so a constant spelling for `Sign() == 0` prints −0.0 as 0.0; likewise no function of ir/constant orders big.Float.Sign() against zero (the sign is read with Signbit: a negative NaN decoded from a hexadecimal literal is held as −0)",
+		Run:  ruleFPCONSTSIGN,
 	})
 	register(&Rule{
-		Name:  "FP-NAN-CMP",
-		Doc:   "the float reader rejects no NaN through a comparison: an error return of the reader's function set (NewFloatFromString and what it calls) guarded by == / != between floating-point values (a round-trip test such as float64(float32(f)) != f) lies under, or after, a test of math.IsNaN — NaN != NaN is true, so such a test ahead of the NaN branch rejects every NaN literal",
-		Run:   ruleFPNANCMP,
+		Name: "FP-NAN-CMP",
+		Doc:  "the float reader rejects no NaN through a comparison: an error return of the reader's function set (NewFloatFromString and what it calls) guarded by == / != between floating-point values (a round-trip test such as float64(float32(f)) != f) lies under, or after, a test of math.IsNaN — NaN != NaN is true, so such a test ahead of the NaN branch rejects every NaN literal",
+		Run:  ruleFPNANCMP,
 	})
 }
 
@@ -813,7 +813,9 @@ func ruleENCVERB(c *Ctx) []Obligation {
 	c.eachFunc(pkgENC, func(p *packages.Package, fd *ast.FuncDecl, fn *types.Func) {
 		info := p.TypesInfo
 		sig := fn.Type().(*types.Signature)
-		if sig.Recv() != nil || sig.Params().Len() != 1 || sig.Results().Len() != 1 || !isPlainString(sig.Params().At(0).Type()) || !isPlainString(sig.Results().At(0).Type()) || !fn.Exported() {
+		// an encoder: string → string, exported — or the method of a descriptor object that does the work
+		// for several exported encoders (identClass.encodeName)
+		if sig.Params().Len() != 1 || sig.Results().Len() != 1 || !isPlainString(sig.Params().At(0).Type()) || !isPlainString(sig.Results().At(0).Type()) || !fn.Exported() && sig.Recv() == nil {
 			return
 		}
 		param := types.Object(sig.Params().At(0))
